@@ -13,7 +13,7 @@ from ..report import Ctx
 from ..skelrules import check_skeleton
 
 PROP = "C09"
-FLOORS = {"C09-G1": 4, "C09-M1": 2, "C09-B1": 4, "C09-N1": 3}
+FLOORS = {"C09-I1": 5, "C09-G1": 4, "C09-M1": 2, "C09-B1": 4, "C09-N1": 3}
 
 EXPLANATION = (
     "Decided: (a) the generators yield every permutation exactly once in (length, lexicographic) order by construction – of_length is "
@@ -32,6 +32,10 @@ def run(ctx: Ctx) -> None:
     ctx.run(rule_m1, ctx)
     ctx.run(rule_b1, ctx)
     ctx.run(rule_n1, ctx)
+    from .. import oneshot
+
+    # "all input sequences to standardisation" / constructors taking any iterable
+    ctx.run(oneshot.report, ctx, "C09-I1", ["permuta.patterns.perm"], ["Perm.to_standard", "Perm.one_based", "Perm.from_iterable_validated"])
 
 
 def rule_g1(ctx: Ctx) -> None:
@@ -312,6 +316,7 @@ def _variants():
         V("mesh-of-length-half", replace_expr(MP, "MeshPatt.of_length", "range(2 ** (length + 1) ** 2)", "range(2 ** (length + 1) ** 2 - 1)", which=1), "fire", "C09-B1"),
         V("from-string-digits-only", replace_stmt(PE, "Perm.from_string", "if string.startswith('('): ...", ""), "fire", "C09-N1", "the original defect"),
         V("str-other-separator", replace_expr(PE, "Perm.__str__", "''.join((f'({i})' for i in self))", "','.join((str(i) for i in self))"), "fire", "C09-N1"),
+        V("validated-scans-then-builds", replace_stmt(PE, "Perm.from_iterable_validated", "perm = cls(iterable)", "if any(isinstance(v, bool) for v in iterable):\n    raise TypeError('bool')\nperm = cls(iterable)"), "fire", "C09-I1"),
         # silent
         V("reformat", reformat_only(MP), "silent"),
         V("of-length-return-gen", replace_stmt(PE, "Perm.of_length", "yield from (cls(perm) for perm in itertools.permutations(range(length)))", "return (cls(perm) for perm in itertools.permutations(range(length)))"), "silent"),
